@@ -141,8 +141,20 @@ func c04X2(r *core.R) {
 			}
 			return m
 		}
-		allObs, why := c04ObserveAttrs(r, root, scen(func(g, f *c03Field) bool { return true }, nil), "attrs: all set")
 		pos := root.fi.Decl.Pos()
+		if st, ok := c04Delegates(r.P, root); ok {
+			// the attributes are written by encoding/xml from the tags of a type with the same fields and tags
+			for _, f := range afs {
+				n++
+				g := "always (no omitempty)"
+				if f.OmitEmpty {
+					g = "exactly when the field is not empty (omitempty)"
+				}
+				v.ok("attr@"+root.tname+"."+f.Var.Name(), pos, "%s hands the whole value to the tag-driven encoding as a %s (same fields and tags, no methods) with the attribute list of the start element untouched: attribute %q is written from the field by its tag `%s`, %s", root.name, c03Short(st), f.Name, c03TagOf(f), g)
+			}
+			continue
+		}
+		allObs, why := c04ObserveAttrs(r, root, scen(func(g, f *c03Field) bool { return true }, nil), "attrs: all set")
 		for _, f := range afs {
 			n++
 			c := "attr@" + root.tname + "." + f.Var.Name()
